@@ -137,6 +137,7 @@ fn cgfx_image() -> [u8; CGFX_LEN] {
 // @timeout 1800
 // @mem 12
 // @bounds one 8x8 L8 texture named "tex" in a hand-laid-out CTPK image (tables, name and payload non-adjacent); probed pixel symbolic
+// @cbmc --max-field-sensitivity-array-size 512
 // @claims CTPK: one texture with the stored name and dimensions; pixel data equal to the decoding of its own payload
 // @assume encoding_rs decode replaced by the 7-bit model (stubs.rs): ASCII names
 #[kani::proof]
@@ -153,6 +154,7 @@ fn c20_ctpk_single_texture() {
 // @timeout 1800
 // @mem 12
 // @bounds one 8x8 L8 texture named "tex" in a hand-laid-out BCH image; probed pixel symbolic
+// @cbmc --max-field-sensitivity-array-size 512
 // @claims BCH: one texture with the stored name and dimensions; pixel data equal to the decoding of its own payload
 // @assume encoding_rs decode replaced by the 7-bit model (stubs.rs)
 #[kani::proof]
@@ -169,6 +171,7 @@ fn c20_bch_single_texture() {
 // @timeout 1800
 // @mem 12
 // @bounds one 8x8 L8 texture named "tex" in a hand-laid-out CGFX image (DATA -> DICT -> TXOB chain with self-relative offsets); probed pixel symbolic
+// @cbmc --max-field-sensitivity-array-size 512
 // @claims CGFX: one texture with the stored name and dimensions; pixel data equal to the decoding of its own payload
 // @assume encoding_rs decode replaced by the 7-bit model (stubs.rs)
 #[kani::proof]
@@ -185,6 +188,7 @@ fn c20_cgfx_single_texture() {
 // @timeout 1200
 // @mem 12
 // @bounds BCH and CGFX images whose magic number is any 32-bit value other than the expected one (symbolic); rest of the image as in the single-texture harnesses
+// @cbmc --max-field-sensitivity-array-size 512
 // @claims BCH and CGFX input with a wrong magic number is rejected
 // @assume encoding_rs decode replaced by the 7-bit model (stubs.rs)
 #[kani::proof]
@@ -211,6 +215,7 @@ fn c20_wrong_magic() {
 // @timeout 1800
 // @mem 12
 // @bounds strict prefixes of the CTPK / BCH / CGFX images at the cut points: empty, inside the header, inside the tables, inside the name, at the start, middle and last byte of the payload (solver-chosen arm)
+// @cbmc --max-field-sensitivity-array-size 512
 // @claims every such prefix is read without panicking and yields an error (each of these cuts removes part of the texture payload)
 // @assume encoding_rs decode replaced by the 7-bit model (stubs.rs)
 #[kani::proof]
@@ -250,6 +255,7 @@ fn c20_truncated_prefixes() {
 // @timeout 600
 // @expect witness
 // @bounds the CTPK single-texture image
+// @cbmc --max-field-sensitivity-array-size 512
 // @claims vacuity witness for the C20 harnesses (must FAIL at its final assert)
 #[kani::proof]
 #[kani::unwind(70)]
